@@ -58,6 +58,97 @@ def _nfunc(mod: Module, qn: str) -> ast.AST:
     return inline_test_locals(inline_helpers(mod, mod.func(qn), cls, NO_INLINE))
 
 
+class _Roles:
+    """Anchors found by ROLE, not by identifier: the argument classifier applied to NinjaRule's command/args, the default
+    shell quote function (default of _quoter's second parameter), its per-platform bindings, the response-file quote
+    function that doubles backslashes, and the table of raw ninja variables."""
+
+    def __init__(self, ctx: RuleCtx, mod: Module):
+        self.mod = mod
+        # default shell quoter
+        qf = mod.func('NinjaRule._quoter')
+        if len(qf.args.args) != 2 or len(qf.args.defaults) != 1 or not isinstance(qf.args.defaults[0], ast.Name):
+            raise Undecided('NinjaRule._quoter: expected (arg, quote function = <name>)')
+        self.shell = qf.args.defaults[0].id
+        # platform switch binding it
+        self.switch = [st for st in mod.tree.body if isinstance(st, ast.If) and
+                       any(isinstance(n, ast.Name) and n.id == self.shell and isinstance(n.ctx, ast.Store) for n in ast.walk(st))]
+        self.win: T.Optional[str] = None
+        self.posix: T.Optional[str] = None
+        if len(self.switch) == 1:
+            for path in enumerate_paths([self.switch[0]]):
+                win = [v for k, v in path.conds() if k.endswith('is_windows()')]
+                vals = [norm(ev.node.value) for ev in path.events if ev.kind == 'stmt' and isinstance(ev.node, ast.Assign)
+                        and any(isinstance(t, ast.Name) and t.id == self.shell for t in ev.node.targets)]
+                if len(win) == 1 and len(vals) == 1:
+                    if win[0]:
+                        self.win = vals[0]
+                    else:
+                        self.posix = vals[0]
+        # classifier of rule arguments
+        init = mod.func('NinjaRule.__init__')
+        self.classifier: T.Dict[str, T.Optional[str]] = {}
+        for attr, param in (('self.command', 'command'), ('self.args', 'args')):
+            self.classifier[attr] = None
+            for st in walk_no_nested(init):
+                tgt = st.targets[0] if isinstance(st, ast.Assign) and len(st.targets) == 1 else (st.target if isinstance(st, ast.AnnAssign) else None)
+                if tgt is None or attr_chain(tgt) != attr or st.value is None:
+                    continue
+                v = st.value
+                if isinstance(v, (ast.ListComp, ast.GeneratorExp)) or (isinstance(v, ast.Call) and call_name(v) == 'list' and v.args and isinstance(v.args[0], (ast.ListComp, ast.GeneratorExp))):
+                    comp = v if not isinstance(v, ast.Call) else v.args[0]
+                    g = comp.generators[0]
+                    if len(comp.generators) == 1 and isinstance(g.target, ast.Name) and norm(g.iter) == param and isinstance(comp.elt, ast.Call) \
+                            and len(comp.elt.args) == 1 and norm(comp.elt.args[0]) == g.target.id and not comp.elt.keywords:
+                        f = comp.elt.func
+                        nm = f.id if isinstance(f, ast.Name) else (f.attr if isinstance(f, ast.Attribute) and isinstance(f.value, ast.Name) and f.value.id in ('self', 'NinjaRule') else None)
+                        for q in ((f'NinjaRule.__init__.{nm}', nm, f'NinjaRule.{nm}') if nm else ()):
+                            if mod.has_func(q):
+                                self.classifier[attr] = q
+                                break
+                elif isinstance(v, ast.Call) and call_name(v) == 'list' and len(v.args) == 1 and isinstance(v.args[0], ast.Call) and call_name(v.args[0]) == 'map' \
+                        and len(v.args[0].args) == 2 and norm(v.args[0].args[1]) == param and isinstance(v.args[0].args[0], ast.Name):
+                    nm = v.args[0].args[0].id
+                    for q in (f'NinjaRule.__init__.{nm}', nm):
+                        if mod.has_func(q):
+                            self.classifier[attr] = q
+                            break
+
+    def rsp_doubling(self) -> T.List[str]:
+        """Module-level functions that return <shell quoter>(arg with every backslash doubled)."""
+        out = []
+        for q, f in self.mod.funcs().items():
+            if '.' in q or len(f.args.args) != 1 or f.args.defaults:
+                continue
+            if not any(isinstance(c, ast.Call) and isinstance(c.func, ast.Attribute) and c.func.attr == 'replace' for c in ast.walk(f)):
+                continue
+            try:
+                if _doubling_shape(f, self.shell):
+                    out.append(q)
+            except Undecided:
+                continue
+        return out
+
+
+def _doubling_shape(fn: ast.AST, shell: str) -> bool:
+    pure = {'replace', shell}
+    tab = tables.extract(fn, effects=_assign_eff, inline_calls=pure)
+    dbl = "ARG1.replace('\\\\', '\\\\\\\\')"
+    if not tab.rows:
+        return False
+    for r in tab.rows:
+        shape = _row_shape(r)
+        if r.outcome[0] == 'return':
+            shape = (_inline_single_defs(shape[0], fn, pure), shape[1])
+        if shape not in ((f'{shell}({dbl})', ()), (f'{shell}(ARG1)', (f'ARG1 := {dbl}',))):
+            return False
+    return True
+
+
+def _roles(ctx: RuleCtx, mod: Module) -> _Roles:
+    return _Roles(ctx, mod)
+
+
 def _assign_eff(st: ast.AST) -> T.Optional[str]:
     if isinstance(st, ast.Assign) and len(st.targets) == 1:
         return f'{norm(st.targets[0])} := {norm(st.value)}'
@@ -294,27 +385,41 @@ def r1a(ctx: RuleCtx) -> None:
     ctx.floor(f'{qn}: rows of the value loop', n_rows, 3)
     for q in sorted(qf_names):
         vals = fl.defs.get(q, [])
-        bad = [norm(v) for v in vals if not (isinstance(v, ast.Name) and v.id in QUOTE_FUNCS)]
-        if not vals and q in QUOTE_FUNCS:
+        if not vals:
             ctx.ok(f'{qn}: values are quoted with {q}')
             continue
-        ctx.require(bool(vals) and not bad, f'{qn}: {q} is bound only to quote functions {sorted(norm(v) for v in vals)}', mod, qn, f'{q} := {bad}',
-                    f'the per-element quote function {q} can be {bad or "undefined"}, which is not one of {sorted(QUOTE_FUNCS)}')
+        notref = [norm(v) for v in vals if not (isinstance(v, ast.Name) and (mod.has_func(v.id) or mod.has_assign(v.id)))]
+        if notref:
+            raise Undecided(f'{qn}: the per-element quote function {q} is bound to {notref}, not to module-level quote functions')
+        ctx.ok(f'{qn}: {q} is bound to the module-level functions {sorted(norm(v) for v in vals)} (agreement with the rule side: R3a)')
     # the variable names are literals at every add_item site
     n = 0
+    unknown_names: T.List[str] = []
     for q, f in mod.funcs().items():
+        ffl: T.Optional[OFlow] = None
         for c in walk_no_nested(f):
-            if isinstance(c, ast.Call) and call_method(c) == 'add_item' and c.args:
-                a = c.args[0]
-                n += 1
-                if isinstance(a, ast.Constant) and isinstance(a.value, str) and re.fullmatch(r'[A-Za-z_][A-Za-z0-9_]*', a.value):
-                    continue
+            if isinstance(c, ast.Call) and call_method(c) == 'add_item' and (c.args or kwarg(c, 'name') is not None):
+                a = c.args[0] if c.args else kwarg(c, 'name')
                 if q == 'NinjaBuildElement.add_item':
                     continue
-                ctx.violation(mod, q, c, f'add_item is called with a computed variable name {short(a)}: names are written unquoted by {qn}', c)
+                n += 1
+                if isinstance(a, ast.Constant):
+                    consts = [a.value]
+                else:
+                    ffl = ffl or OFlow(f)
+                    oo = ffl.origins(a)
+                    if any(not o.startswith('const:') for o in oo):
+                        unknown_names.append(f'{q}: {short(c, 60)}')
+                        continue
+                    consts = [ast.literal_eval(o[6:]) for o in oo]
+                badc = [x for x in consts if not (isinstance(x, str) and re.fullmatch(r'[A-Za-z_][A-Za-z0-9_]*', x))]
+                if badc:
+                    ctx.violation(mod, q, c, f'add_item is called with the variable name {badc[0]!r}, which is not an identifier: names are written unquoted by {qn}', c)
     ctx.floor('add_item call sites with a literal identifier as variable name', n, 60)
     if opaque_flows:
         raise Undecided(f'{qn}: {sorted(set(opaque_flows))} reach outfile.write through a callee the analysis cannot see into')
+    if unknown_names:
+        raise Undecided(f'{qn}: add_item variable names that are not compile-time constants: {unknown_names[:3]}')
     ctx.ok(f'{n} add_item sites pass a literal identifier as the (unquoted) variable name')
 
 
@@ -383,8 +488,10 @@ def r1b(ctx: RuleCtx) -> None:
         raise Undecided('NinjaRule.__init__: self.command_str is not assigned exactly once')
     cs_o = fi.origins(cs_defs[0])
     bad = sorted(o for o in cs_o if o.split(':')[0] in ('param', 'attr', 'name') and o not in ('param:self',))
-    ctx.require(not bad and 'san:_quoter' in cs_o, 'NinjaRule.__init__: command_str is built from _quoter results only', mod, 'NinjaRule.__init__',
-                f'self.command_str <- {bad}', f'self.command_str receives {bad or "no _quoter result"} without passing _quoter', cs_defs[0])
+    if not bad and 'san:_quoter' not in cs_o:
+        raise Undecided(f'NinjaRule.__init__: cannot see how self.command_str is built ({sorted(cs_o)})')
+    ctx.require(not bad, 'NinjaRule.__init__: command_str is built from _quoter results only', mod, 'NinjaRule.__init__',
+                f'self.command_str <- {bad}', f'self.command_str receives {bad} without passing _quoter', cs_defs[0])
     default_qf = norm(mod.func('NinjaRule._quoter').args.defaults[0])
     seen_vars: T.Dict[str, int] = {}
     for c in sinks:
@@ -414,14 +521,21 @@ def r1b(ctx: RuleCtx) -> None:
                                 'the response file content is quoted with the shell quoter instead of the rsp-style quote function', sc.call)
     ctx.floor(f'{qn}: command lines written', seen_vars.get('command', 0), 3)
     ctx.floor(f'{qn}: rspfile_content lines written', seen_vars.get('rspfile_content', 0), 1)
-    # command/args hold NinjaCommandArg produced by strToCommandArg
+    # command/args hold NinjaCommandArg produced by the argument classifier (found by role)
+    roles = _roles(ctx, mod)
     for attr in ('self.command', 'self.args'):
+        q = roles.classifier.get(attr)
+        if q is not None:
+            ctx.ok(f'NinjaRule.__init__: every element of {attr} is classified by {q}')
+            continue
         dv = fi.attr_defs.get(attr, [])
         oo: T.Set[str] = set()
         for v in dv:
             oo |= fi.origins(v)
-        ctx.require(len(dv) == 1 and 'call:strToCommandArg' in oo, f'NinjaRule.__init__: {attr} elements come from strToCommandArg', mod, 'NinjaRule.__init__',
-                    f'{attr} <- {sorted(oo)}', f'{attr} is not built by strToCommandArg over the constructor argument')
+        if len(dv) == 1 and isinstance(dv[0], ast.Name) and dv[0].id in fi.params:
+            ctx.violation(mod, 'NinjaRule.__init__', f'{attr} = {norm(dv[0])}', f'{attr} stores the constructor argument unclassified: plain strings reach _quoter without a Quoting', dv[0])
+        else:
+            raise Undecided(f'NinjaRule.__init__: cannot identify the function that classifies the elements of {attr} ({sorted(oo)[:6]})')
 
 
 # ---------------------------------------------------------------------------
@@ -678,6 +792,7 @@ def _qf_map(ctx: RuleCtx, mod: Module, qn: str, var: str, subjects: T.Set[str], 
 
 def r3a(ctx: RuleCtx) -> None:
     mod = ctx.repo.module(NINJA)
+    roles = _roles(ctx, mod)
     members = _style_members(ctx, mod)
     # rule side: variable passed as quote function to _quoter for rspfile_content
     wfn = _nfunc(mod, 'NinjaRule.write')
@@ -712,34 +827,48 @@ def r3a(ctx: RuleCtx) -> None:
                     f'RSPFileSyntax.{m}: rule {r} / element {e}',
                     f'for RSPFileSyntax.{m} NinjaRule.write quotes rspfile_content with {r} but NinjaBuildElement.write quotes the variable values with {e}: '
                     'the response file mixes two quoting syntaxes')
-        ctx.require(r in QUOTE_FUNCS - {'quote_func'}, f'rsp style {m}: {r} is a response-file quote function', mod, 'NinjaRule.write', f'RSPFileSyntax.{m}: {r}',
-                    f'response files of style {m} are quoted with {r}, which is not a response-file quote function')
+        ctx.require(r != roles.shell, f'rsp style {m}: {r} is not the shell quoter', mod, 'NinjaRule.write', f'RSPFileSyntax.{m}: {r}',
+                    f'response files of style {m} are quoted with the shell quote function {r}: a response file is not read by the shell')
     plain = {elem_map.get((False, m)) for m in members}
     default_qf = norm(mod.func('NinjaRule._quoter').args.defaults[0])
     ctx.require(plain == {default_qf}, f'without response file the element quotes with {sorted(map(str, plain))} = _quoter default {default_qf}', mod,
                 'NinjaBuildElement.write', f'plain: {sorted(map(str, plain))} / {default_qf}',
                 f'without a response file values are quoted with {sorted(map(str, plain))} while the rule command line is quoted with {default_qf}')
     # MSVC/TASKING -> cmd_quote, others -> gcc_rsp_quote (reference: documentation of the rsp syntaxes)
-    ref = {'MSVC': 'cmd_quote', 'TASKING': 'cmd_quote', 'GCC': 'gcc_rsp_quote'}
+    dbl = roles.rsp_doubling()
+    if roles.win is None or len(dbl) != 1:
+        raise Undecided(f'cannot identify by role the Windows command-line quoter ({roles.win}) / the backslash-doubling response-file quoter ({dbl})')
+    ref = {'MSVC': roles.win, 'TASKING': roles.win, 'GCC': dbl[0]}
     for m, want in ref.items():
         if m in members:
             ctx.require(rule_map[(True, m)] == want, f'rsp style {m} -> {want}', mod, 'NinjaRule.write', f'RSPFileSyntax.{m} -> {rule_map[(True, m)]}',
-                        f'RSPFileSyntax.{m} response files are quoted with {rule_map[(True, m)]}; the syntax requires {want}')
+                        f'RSPFileSyntax.{m} response files are quoted with {rule_map[(True, m)]}; the syntax requires {want} '
+                        f'({"CommandLineToArgvW rules" if want == roles.win else "libiberty buildargv: backslash escapes everywhere"})')
 
 
 def r3b(ctx: RuleCtx) -> None:
     mod = ctx.repo.module(NINJA)
-    raw = fold_const(ctx.repo, mod, 'raw_names')
-    n_assign = sum(1 for st in ast.walk(mod.tree) if isinstance(st, (ast.Assign, ast.AugAssign, ast.AnnAssign))
-                   for t in (st.targets if isinstance(st, ast.Assign) else [st.target]) if isinstance(t, ast.Name) and t.id == 'raw_names')
-    ctx.require(isinstance(raw, (set, frozenset)) and all(isinstance(x, str) for x in raw) and n_assign == 1,
-                f'raw_names is one module-level set of {len(raw)} names', mod, '<module>', 'raw_names', f'raw_names is assigned {n_assign} times / folds to {raw!r}')
-    qn = 'NinjaRule.__init__.strToCommandArg'
+    roles = _roles(ctx, mod)
+    # the table of raw variables, found by role: what NinjaBuildElement.write tests the variable name against
+    efn = _nfunc(mod, 'NinjaBuildElement.write')
+    efl = OFlow(efn)
+    etabs = set()
+    for n in ast.walk(efn):
+        if isinstance(n, ast.Compare) and len(n.ops) == 1 and isinstance(n.ops[0], (ast.In, ast.NotIn)) and 'attr:self.elems[0]' in efl.origins(n.left):
+            etabs.add(norm(n.comparators[0]))
+    if not etabs:
+        raise Undecided('NinjaBuildElement.write: no membership test of the variable name found')
+    tname = sorted(etabs)[0]
+    qs = {roles.classifier.get('self.command'), roles.classifier.get('self.args')}
+    if len(qs) != 1 or None in qs:
+        raise Undecided(f'NinjaRule.__init__: command and args are not classified by one identifiable function ({qs})')
+    qn = next(iter(qs))
     fn = inline_test_locals(mod.func(qn))
     fl = OFlow(fn)
     tab = tables.extract(fn, name=qn)
     sem: T.Dict[Atom, str] = {}
     var_expr = None
+    rtabs = set()
     for a in tab.atoms():
         if a.kind == 'isinstance' and a.args == ('ARG1', ('NinjaCommandArg',)):
             sem[a] = 'I'
@@ -747,24 +876,27 @@ def r3b(ctx: RuleCtx) -> None:
             sem[a] = 'A'
         elif a.kind == 'truth' and a.args[0] == "ARG1.startswith('$')":
             sem[a] = 'D'
-        elif a.kind == 'in' and a.args[1] == 'raw_names':
+        elif a.kind == 'in' and a.args[0] != 'ARG1':
             sem[a] = 'R'
             var_expr = a.args[0]
+            rtabs.add(a.args[1])
         else:
             raise Undecided(f'{qn}: condition {a!r} outside the vocabulary')
     if set(sem.values()) != {'I', 'A', 'D', 'R'}:
-        raise Undecided(f'{qn}: conditions found {sorted(sem.values())}, expected isinstance/&&/$/raw_names')
-    ctx.require('raw_names' not in fl.defs and 'raw_names' not in fl.params, f'{qn} consults the module-level raw_names', mod, qn, 'raw_names', 'raw_names is shadowed locally')
-    efn = _nfunc(mod, 'NinjaBuildElement.write')
-    efl = OFlow(efn)
-    etabs = set()
-    for n in ast.walk(efn):
-        if isinstance(n, ast.Compare) and len(n.ops) == 1 and isinstance(n.ops[0], (ast.In, ast.NotIn)) and 'attr:self.elems[0]' in efl.origins(n.left):
-            etabs.add(norm(n.comparators[0]))
-    ctx.require('raw_names' not in efl.defs and 'raw_names' not in efl.params and etabs == {'raw_names'},
-                'NinjaBuildElement.write tests the variable name against the module-level raw_names', mod, 'NinjaBuildElement.write', f'variable name in {sorted(etabs)}',
-                f'NinjaBuildElement.write tests the variable name against {sorted(etabs)}; NinjaRule classifies `$var` references with raw_names: '
+        raise Undecided(f'{qn}: conditions found {sorted(sem.values())}, expected isinstance / `&&` / `$` prefix / raw-variable table')
+    ctx.require(len(etabs) == 1 and rtabs == etabs, f'rule side ({qn}) and element side test variable names against the same table {sorted(etabs)}', mod,
+                'NinjaBuildElement.write', f'variable name in {sorted(etabs)} / rule side {sorted(rtabs)}',
+                f'NinjaBuildElement.write tests the variable name against {sorted(etabs)} while {qn} classifies `$var` references with {sorted(rtabs)}: '
                 'the two sides disagree on which variables are shell-quoted at use')
+    if not tname.isidentifier():
+        raise Undecided(f'the raw-variable table is the expression {tname}, not a module constant')
+    ctx.require(tname not in fl.defs and tname not in fl.params and tname not in efl.defs and tname not in efl.params, f'{tname} is the module-level table on both sides', mod, qn, tname,
+                f'{tname} is shadowed locally')
+    raw = fold_const(ctx.repo, mod, tname)
+    n_assign = sum(1 for st in ast.walk(mod.tree) if isinstance(st, (ast.Assign, ast.AugAssign, ast.AnnAssign))
+                   for t in (st.targets if isinstance(st, ast.Assign) else [st.target]) if isinstance(t, ast.Name) and t.id == tname)
+    ctx.require(isinstance(raw, (set, frozenset, tuple, list)) and all(isinstance(x, str) for x in raw) and n_assign == 1,
+                f'{tname} is one module-level constant collection of {len(raw)} names', mod, '<module>', tname, f'{tname} is assigned {n_assign} times / folds to {raw!r}')
 
     def ref(v: T.Dict[str, bool]) -> str:
         if v['I']:
@@ -812,7 +944,7 @@ def r3b(ctx: RuleCtx) -> None:
         raise Undecided(f'{qn}: cannot find the single constant regex that extracts the variable name ({pats})')
     ok, why = _name_regex_shape(pats[0])
     ctx.require(ok, f'{qn}: {pats[0]!r}: {why}', mod, qn, f'name regex {pats[0]}',
-                f'the regex {pats[0]!r} that extracts the variable name for the raw_names lookup: {why}')
+                f'the regex {pats[0]!r} that extracts the variable name for the raw-variable lookup: {why}')
 
 
 def _name_regex_shape(pattern: str) -> T.Tuple[bool, str]:
@@ -846,38 +978,33 @@ def _name_regex_shape(pattern: str) -> T.Tuple[bool, str]:
 
 def r3c(ctx: RuleCtx) -> None:
     mod = ctx.repo.module(NINJA)
-    qn = 'gcc_rsp_quote'
+    roles = _roles(ctx, mod)
+    shell = roles.shell
+    # the quote function used for GCC-style response files (role: assigned on the rule side for the non-MSVC styles)
+    wfn = _nfunc(mod, 'NinjaRule.write')
+    fl = OFlow(wfn, {'ninja_quote', '_quoter'})
+    for c in _sinks(wfn, fl):
+        fl.origins(c.args[0])
+    rvars = {norm(sc.call.args[1]) for sc in fl.san.values() if sc.name == '_quoter' and len(sc.call.args) > 1}
+    if len(rvars) != 1:
+        raise Undecided(f'NinjaRule.write: rsp quote function expression(s) {sorted(rvars)}')
+    rmap = _qf_map(ctx, mod, 'NinjaRule.write', next(iter(rvars)), {'self.rspfile_quote_style'}, _style_members(ctx, mod), lambda a: False)
+    gcc = rmap.get((True, 'GCC'))
+    if gcc is None or not mod.has_func(gcc):
+        raise Undecided(f'cannot identify the quote function of GCC-style response files ({gcc})')
+    qn = gcc
     fn = mod.func(qn)
-    tab = tables.extract(fn, effects=_assign_eff, name=qn, inline_calls={'replace', 'quote_func', 'cmd_quote', 'quote_arg'})
-    ctx.floor(f'{qn}: paths', len(tab.rows), 1)
-    dbl = "ARG1.replace('\\\\', '\\\\\\\\')"
-    for r in tab.rows:
-        shape = _row_shape(r)
-        if r.outcome[0] == 'return':
-            shape = (_inline_single_defs(shape[0], fn, {'replace', 'quote_func', 'cmd_quote', 'quote_arg'}), shape[1])
-        ok = shape in ((f'quote_func({dbl})', ()), ('quote_func(ARG1)', (f'ARG1 := {dbl}',)))
-        ctx.require(ok, f'{qn}: returns quote_func(text with every backslash doubled)', mod, qn, f'return {shape[0]} after {list(shape[1])}',
-                    f'{qn} returns {shape[0]} after {list(shape[1])}: GCC-style response files (libiberty buildargv) treat a backslash as escape even inside quotes, '
-                    'so backslashes must be doubled before shell-style quoting (expected quote_func of the argument with .replace of one backslash by two)',
-                    r.path.events[-1].node if r.path.events else fn)
-    # quote_func binding at module level
-    ifs = [st for st in mod.tree.body if isinstance(st, ast.If) and any(isinstance(n, ast.Name) and n.id == 'quote_func' and isinstance(n.ctx, ast.Store) for n in ast.walk(st))]
-    others = [st for st in mod.tree.body if not isinstance(st, ast.If) and isinstance(st, (ast.Assign, ast.AnnAssign))
-              and any(isinstance(n, ast.Name) and n.id == 'quote_func' and isinstance(n.ctx, ast.Store) for n in ast.walk(st))]
-    if len(ifs) != 1 or others:
-        raise Undecided('quote_func is not bound by exactly one platform switch')
-    n = 0
-    for path in enumerate_paths([ifs[0]]):
-        win = [v for k, v in path.conds() if k.endswith('is_windows()')]
-        vals = [norm(ev.node.value) for ev in path.events if ev.kind == 'stmt' and isinstance(ev.node, ast.Assign)
-                and any(isinstance(t, ast.Name) and t.id == 'quote_func' for t in ev.node.targets)]
-        if len(win) != 1 or len(vals) != 1:
-            raise Undecided(f'quote_func binding path {path.describe()}')
-        want = 'cmd_quote' if win[0] else 'quote_arg'
-        n += 1
-        ctx.require(vals[0] == want, f'quote_func on {"Windows" if win[0] else "POSIX"} hosts is {vals[0]}', mod, '<module>', f'quote_func = {vals[0]} (windows={win[0]})',
-                    f'on {"Windows" if win[0] else "POSIX"} hosts quote_func is {vals[0]}; ninja runs commands through {"CreateProcess" if win[0] else "/bin/sh"}, which needs {want}')
-    ctx.floor('quote_func bindings', n, 2)
+    ctx.floor(f'{qn}: paths', len(tables.extract(fn).rows), 1)
+    ctx.require(_doubling_shape(fn, shell), f'{qn}: returns {shell}(text with every backslash doubled)', mod, qn, f'{qn} shape',
+                f'{qn}, the quote function of GCC-style response files, does not return {shell}(arg.replace of one backslash by two): libiberty buildargv treats a '
+                'backslash as escape even inside quotes, so backslashes must be doubled before shell-style quoting', fn)
+    # shell quoter binding at module level
+    if len(roles.switch) != 1 or roles.win is None or roles.posix is None:
+        raise Undecided(f'{shell} is not bound by exactly one platform switch')
+    ctx.require(mod.has_func(roles.win) and roles.win != roles.posix, f'{shell} on Windows hosts is {roles.win}', mod, '<module>', f'{shell} = {roles.win} (windows)',
+                f'on Windows hosts {shell} is {roles.win}, the same as on POSIX hosts / not a function of this module: ninja runs commands through CreateProcess there')
+    ctx.require(roles.posix == 'quote_arg', f'{shell} on POSIX hosts is {roles.posix}', mod, '<module>', f'{shell} = {roles.posix} (posix)',
+                f'on POSIX hosts {shell} is {roles.posix}; ninja runs commands through /bin/sh, which needs mesonlib.quote_arg (shlex.quote)')
     ctx.require(mod.imports().get('quote_arg', '').endswith('mesonlib.quote_arg'), 'quote_arg is mesonlib.quote_arg', mod, '<module>', 'import quote_arg',
                 f'quote_arg is imported from {mod.imports().get("quote_arg")}')
     # POSIX quote_arg is shlex.quote
@@ -922,8 +1049,47 @@ def _joined(e: ast.AST, fl: OFlow) -> T.List[str]:
     return sorted(x for x in o if x in ('call:str.join', 'call:str.format') or (x.endswith('.join') and x != 'call:os.path.join') or x.endswith('.format') or x in ('call:join_args', 'call:mesonlib.join_args', 'call:quote_arg', 'call:shlex.quote', 'call:shlex.join'))
 
 
+def _uncopy(e: ast.AST) -> ast.AST:
+    """list(x), x[:], x.copy(), [*x], tuple(x) denote the same sequence of elements as x."""
+    while True:
+        if isinstance(e, ast.Call) and call_name(e) in ('list', 'tuple') and len(e.args) == 1 and not e.keywords:
+            e = e.args[0]
+        elif isinstance(e, ast.Call) and isinstance(e.func, ast.Attribute) and e.func.attr == 'copy' and not e.args:
+            e = e.func.value
+        elif isinstance(e, ast.Subscript) and isinstance(e.slice, ast.Slice) and e.slice.lower is None and e.slice.upper is None and e.slice.step is None:
+            e = e.value
+        elif isinstance(e, ast.List) and len(e.elts) == 1 and isinstance(e.elts[0], ast.Starred):
+            e = e.elts[0].value
+        else:
+            return e
+
+
+def _appended(st: ast.AST, lst: str) -> T.Optional[T.List[ast.AST]]:
+    """Items one statement adds at the end of list `lst`: lst.append(x) / lst.extend([x, y]) / lst += [x] (None: not such a statement;
+    a Starred item stands for a whole sequence)."""
+    if isinstance(st, ast.Expr) and isinstance(st.value, ast.Call) and isinstance(st.value.func, ast.Attribute) and norm(st.value.func.value) == lst and len(st.value.args) == 1:
+        c = st.value
+        if c.func.attr == 'append':
+            return [c.args[0]]
+        if c.func.attr == 'extend':
+            a = c.args[0]
+            return list(a.elts) if isinstance(a, (ast.List, ast.Tuple)) else [ast.Starred(value=a, ctx=ast.Load())]
+    if isinstance(st, ast.AugAssign) and isinstance(st.op, ast.Add) and norm(st.target) == lst:
+        a = st.value
+        return list(a.elts) if isinstance(a, (ast.List, ast.Tuple)) else [ast.Starred(value=a, ctx=ast.Load())]
+    return None
+
+
 def _concat_chain(e: ast.AST, fl: OFlow, depth: int = 0) -> T.List[str]:
     """Flatten a `+` chain of list expressions, resolving single-definition locals."""
+    if isinstance(e, ast.BinOp) and isinstance(e.op, ast.Add):
+        return _concat_chain(e.left, fl, depth) + _concat_chain(e.right, fl, depth)
+    e = _uncopy(e)
+    if isinstance(e, ast.List) and any(isinstance(x, ast.Starred) for x in e.elts) and all(isinstance(x, ast.Starred) for x in e.elts):
+        out: T.List[str] = []
+        for x in e.elts:
+            out += _concat_chain(x.value, fl, depth)      # [*a, *b] == a + b
+        return out
     if isinstance(e, ast.BinOp) and isinstance(e.op, ast.Add):
         return _concat_chain(e.left, fl, depth) + _concat_chain(e.right, fl, depth)
     if isinstance(e, ast.Name) and e.id not in fl.params and len(fl.defs.get(e.id, [])) == 1 and depth < 4:
@@ -956,22 +1122,30 @@ def r4a(ctx: RuleCtx) -> None:
             raise Undecided(f'{qn}: {short(c)} without a positional argv')
         o = fl.origins(c.args[0])
         j = _joined(c.args[0], fl)
-        ctx.require(f'attr:{p0}.cmd_args' in o and not j, f'{qn}: {short(c, 40)} receives {p0}.cmd_args as a list (origins {sorted(x for x in o if x.startswith("attr:"))})',
-                    mod, qn, f'{norm(c.func)}({norm(c.args[0])}) <- {j or "no cmd_args"}',
-                    f'the argv of {short(c, 40)} {"is built through " + ", ".join(j) if j else "does not come from " + p0 + ".cmd_args"}: arguments are not passed one-to-one', c)
-        chain_opts = [_concat_chain(v, fl) for v in (fl.defs.get(c.args[0].id, []) if isinstance(c.args[0], ast.Name) else [c.args[0]])]
+        if f'attr:{p0}.cmd_args' not in o and not j:
+            raise Undecided(f'{qn}: cannot see where the argv of {short(c, 40)} comes from ({sorted(o)[:6]})')
+        ctx.require(not j, f'{qn}: {short(c, 40)} receives {p0}.cmd_args as a list (origins {sorted(x for x in o if x.startswith("attr:"))})',
+                    mod, qn, f'{norm(c.func)}({norm(c.args[0])}) <- {j}',
+                    f'the argv of {short(c, 40)} is built through {", ".join(j)}: arguments are not passed one-to-one', c)
+        chain_opts = [_concat_chain(v, fl) for v in (fl.defs.get(c.args[0].id, []) if isinstance(c.args[0], ast.Name) and c.args[0].id not in fl.params else [c.args[0]])]
         for ch in chain_opts:
-            ctx.require(ch[-1] == f'{p0}.cmd_args' and all(x.endswith('.get_command()') for x in ch[:-1]),
-                        f'{qn}: argv = {" + ".join(ch)}', mod, qn, f'argv = {" + ".join(ch)}',
-                        f'argv is {" + ".join(ch)}: the serialised arguments must come last, preceded only by the exe wrapper command', c)
+            tail = f'{p0}.cmd_args'
+            if tail in ch and ch[-1] != tail:
+                ctx.violation(mod, qn, f'argv = {" + ".join(ch)}', f'argv is {" + ".join(ch)}: something follows the serialised arguments (they must come last, after the exe wrapper command)', c)
+            elif tail in ch and all(x.endswith('.get_command()') for x in ch[:-1]):
+                ctx.ok(f'{qn}: argv = {" + ".join(ch)}')
+            else:
+                raise Undecided(f'{qn}: argv is built as {" + ".join(ch)}, outside the understood forms')
     # run(): --unpickle gives the object to run_exe unchanged; otherwise remaining argv
     rfn = mod.func('run')
     calls = [c for c in ast.walk(rfn) if isinstance(c, ast.Call) and call_name(c) == 'run_exe']
     rfl = OFlow(rfn)
     for c in calls:
         o = rfl.origins(c.args[0])
-        ctx.require('call:pickle.load' in o and not _joined(c.args[0], rfl), 'run: run_exe receives the unpickled serialisation', mod, 'run', c,
-                    f'run_exe({short(c.args[0])}) does not receive the object read by pickle.load', c)
+        if 'call:pickle.load' not in o and 'call:ExecutableSerialisation' not in o:
+            raise Undecided(f'run: cannot see what run_exe({short(c.args[0])}) receives')
+        ctx.require(not _joined(c.args[0], rfl), 'run: run_exe receives the unpickled / constructed serialisation', mod, 'run', c,
+                    f'run_exe({short(c.args[0])}) receives a value built by string joining', c)
     ctx.floor('run: run_exe calls', len(calls), 1)
     _r4a_cmdline(ctx, mod, rfn, rfl)
 
@@ -1010,6 +1184,15 @@ def _r4a_cmdline(ctx: RuleCtx, mod: Module, rfn: ast.AST, rfl: OFlow) -> None:
                 ctx.require(guarded, f"{qn}: {v} = {norm(d)} only when {v}[0] == '--'", mod, qn, f'{v} = {norm(d)}',
                             f"{v} = {norm(d)} is not guarded by a test {v}[0] == '--': the first word of the command would be dropped", d)
                 continue
+            dd = _uncopy(d) if not isinstance(d, Proj) else d
+            if isinstance(dd, ast.Name) and dd.id == v:
+                ctx.ok(f'{qn}: {v} = {norm(d)} copies the list')
+                continue
+            is_filter = isinstance(dd, (ast.ListComp, ast.GeneratorExp)) and (dd.generators[0].ifs or norm(dd.elt) != norm(dd.generators[0].target)) or \
+                (isinstance(dd, ast.Call) and call_name(dd) in ('filter', 'map')) or \
+                (isinstance(dd, ast.Subscript) and isinstance(dd.slice, ast.Slice) and isinstance(dd.value, ast.Name) and dd.value.id == v)
+            if not is_filter:
+                raise Undecided(f'{qn}: {v} = {short(d)} is outside the understood forms (leftover argv, guarded tail slice, copy)')
             ctx.violation(mod, qn, f'{v} = {norm(d)}',
                           f'the command line run by the wrapper is rebuilt as `{short(d)}`: only the single leading `--` left by argparse may be removed '
                           f"({v}[1:] under {v}[0] == '--'); any other rewrite drops or changes arguments (e.g. every `--` of `prog -x -- @INPUT@`)", d)
@@ -1035,9 +1218,16 @@ def r4b(ctx: RuleCtx) -> None:
     ctx.floor(f'{qn}: process creations', len(spawns), 1)
     p_args = [a.arg for a in fn.args.args if a.arg != 'self'][0]
     for c in spawns:
-        ok = len(c.args) == 1 and isinstance(c.args[0], ast.Starred) and isinstance(c.args[0].value, ast.Name) and c.args[0].value.id == p_args
-        ctx.require(ok, f'{qn}: {short(c.func)}(*{p_args}) spreads the argv list', mod, qn, f'{norm(c.func)}({", ".join(norm(a) for a in c.args)})',
-                    f'the child is created with ({", ".join(short(a, 30) for a in c.args)}), not with the argv list spread one argument per element', c)
+        sfl = OFlow(fn)
+        spread = [_concat_chain(a.value, sfl) for a in c.args if isinstance(a, ast.Starred)]
+        joined = [a for a in c.args if _joined(a.value if isinstance(a, ast.Starred) else a, sfl)]
+        if joined or (len(c.args) == 1 and not isinstance(c.args[0], ast.Starred) and f'param:{p_args}' in sfl.origins(c.args[0])):
+            ctx.violation(mod, qn, f'{norm(c.func)}({", ".join(norm(a) for a in c.args)})',
+                          f'the child is created with ({", ".join(short(a, 30) for a in c.args)}), not with the argv list spread one argument per element', c)
+        elif len(c.args) == 1 and spread == [[p_args]]:
+            ctx.ok(f'{qn}: {short(c.func)}(*{p_args}) spreads the argv list')
+        else:
+            raise Undecided(f'{qn}: process created with ({", ".join(short(a, 30) for a in c.args)}), outside the understood forms')
     # _run_cmd -> _run_subprocess
     qn2 = 'SingleTestRunner._run_cmd'
     fn2 = mod.func(qn2)
@@ -1047,9 +1237,12 @@ def r4b(ctx: RuleCtx) -> None:
     ctx.floor(f'{qn2}: _run_subprocess calls', len(calls), 1)
     for c in calls:
         ch = _concat_chain(c.args[0], fl2) if c.args else []
-        ctx.require(bool(ch) and ch[0] == p_cmd and p_cmd not in fl2.defs,
-                    f'{qn2}: argv = {" + ".join(ch)}', mod, qn2, f'argv = {" + ".join(ch)}',
-                    f'the argv handed to _run_subprocess is {" + ".join(ch)}: the test command must come first and unchanged', c)
+        if p_cmd in ch and ch[0] != p_cmd:
+            ctx.violation(mod, qn2, f'argv = {" + ".join(ch)}', f'the argv handed to _run_subprocess is {" + ".join(ch)}: the test command must come first', c)
+        elif ch and ch[0] == p_cmd and p_cmd not in fl2.defs:
+            ctx.ok(f'{qn2}: argv = {" + ".join(ch)}')
+        else:
+            raise Undecided(f'{qn2}: argv handed to _run_subprocess is {" + ".join(ch)}, outside the understood forms')
     # run -> _run_cmd
     qn3 = 'SingleTestRunner.run'
     fn3 = mod.func(qn3)
@@ -1059,8 +1252,11 @@ def r4b(ctx: RuleCtx) -> None:
     want = ['self.cmd', 'self.test.cmd_args', 'self.options.test_args']
     for c in calls:
         ch = _concat_chain(c.args[-1], fl3)
-        ctx.require(ch == want and not _joined(c.args[-1], fl3), f'{qn3}: argv = {" + ".join(ch)}', mod, qn3, f'argv = {" + ".join(ch)}',
-                    f'the test argv is {" + ".join(ch)}; it must be program + test() args + --test-args in this order, as lists', c)
+        if set(ch) == set(want) and len(ch) == len(want) or _joined(c.args[-1], fl3):
+            ctx.require(ch == want and not _joined(c.args[-1], fl3), f'{qn3}: argv = {" + ".join(ch)}', mod, qn3, f'argv = {" + ".join(ch)}',
+                        f'the test argv is {" + ".join(ch)}; it must be program + test() args + --test-args in this order, as lists', c)
+        else:
+            raise Undecided(f'{qn3}: test argv is {" + ".join(ch)}, outside the understood form {" + ".join(want)}')
     # _get_cmd: wrapper + test command
     qn4 = 'SingleTestRunner._get_cmd'
     fn4 = mod.func(qn4)
@@ -1069,8 +1265,13 @@ def r4b(ctx: RuleCtx) -> None:
     ctx.floor(f'{qn4}: returned commands', len(rets), 1)
     for v in rets:
         ch = _concat_chain(v, fl4)
-        ctx.require(len(ch) == 2 and ch[0].endswith('get_wrapper(self.options)') and ch[1] == 'self._get_test_cmd()', f'{qn4}: command = {" + ".join(ch)}', mod, qn4,
-                    f'command = {" + ".join(ch)}', f'the test command is {" + ".join(ch)}; expected wrapper + test command')
+        isw = [x.endswith('get_wrapper(self.options)') for x in ch]
+        ist = [x == 'self._get_test_cmd()' for x in ch]
+        if len(ch) == 2 and any(isw) and any(ist):
+            ctx.require(isw[0] and ist[1], f'{qn4}: command = {" + ".join(ch)}', mod, qn4,
+                        f'command = {" + ".join(ch)}', f'the test command is {" + ".join(ch)}; expected wrapper + test command')
+        else:
+            raise Undecided(f'{qn4}: test command is {" + ".join(ch)}, outside the understood form wrapper + test command')
 
 
 def r4c(ctx: RuleCtx) -> None:
@@ -1091,19 +1292,25 @@ def r4c(ctx: RuleCtx) -> None:
         if not isinstance(av, ast.Name):
             raise Undecided(f'{qn}: cmd_args field receives {short(av)}')
         lst = av.id
-        ctx.require(norm(bound.get('fname')) != lst and isinstance(bound.get('fname'), ast.Name), f'{qn}: fields fname={short(bound.get("fname"))}, cmd_args={lst}', mod, qn,
+        ctx.require(norm(bound.get('fname')) != lst, f'{qn}: fields fname={short(bound.get("fname"))}, cmd_args={lst}', mod, qn,
                     f'TestSerialisation(fname={norm(bound.get("fname"))}, cmd_args={lst})', 'fname and cmd_args receive the same list', c)
         # the loop(s) that fill the list
         loops = [l for l in ast.walk(fn) if isinstance(l, ast.For) and isinstance(l.target, ast.Name)
-                 and any(isinstance(x, ast.Call) and call_method(x) in ('append', 'extend') and isinstance(x.func, ast.Attribute) and norm(x.func.value) == lst for x in ast.walk(l))]
+                 and any(_appended(x, lst) is not None for x in ast.walk(l))]
         inner = [l for l in loops if not any(l2 is not l and any(n is l2 for n in ast.walk(l)) for l2 in loops)]
         if len(inner) != 1:
             raise Undecided(f'{qn}: {len(inner)} loops fill {lst}')
         loop = inner[0]
         it = loop.target.id
-        ctx.require((attr_chain(loop.iter) or '').endswith('.cmd_args'),
-                    f'{qn}: {lst} is filled by iterating {norm(loop.iter)} in order', mod, qn, f'for {it} in {norm(loop.iter)}',
-                    f'{lst} is filled from {norm(loop.iter)}, not from the test arguments in their given order', loop)
+        src = _uncopy(loop.iter)
+        if isinstance(src, ast.Name) and src.id not in fl.params and len(fl.defs.get(src.id, [])) == 1:
+            src = _uncopy(fl.defs[src.id][0])
+        if (attr_chain(src) or '').endswith('.cmd_args'):
+            ctx.ok(f'{qn}: {lst} is filled by iterating {norm(loop.iter)} in order')
+        elif isinstance(src, ast.Call) and call_name(src) in ('sorted', 'reversed', 'set', 'frozenset') and src.args and (attr_chain(_uncopy(src.args[0])) or '').endswith('.cmd_args'):
+            ctx.violation(mod, qn, f'for {it} in {norm(loop.iter)}', f'{lst} is filled from {norm(loop.iter)}: the test arguments are not kept in their given order', loop)
+        else:
+            raise Undecided(f'{qn}: {lst} is filled by iterating {short(loop.iter)}, not recognisably the test arguments')
         nrow = 0
         for p in enumerate_paths(loop.body):
             idx = None
@@ -1115,14 +1322,19 @@ def r4c(ctx: RuleCtx) -> None:
             after = p.events[idx + 1:]
             rew = [norm(ev.node) for ev in after if ev.kind == 'stmt' and isinstance(ev.node, (ast.Assign, ast.AugAssign))
                    and any(isinstance(n, ast.Name) and n.id == it and isinstance(n.ctx, ast.Store) for n in ast.walk(ev.node))]
-            apps = [ev.node.value for ev in after if ev.kind == 'stmt' and isinstance(ev.node, ast.Expr) and isinstance(ev.node.value, ast.Call)
-                    and isinstance(ev.node.value.func, ast.Attribute) and norm(ev.node.value.func.value) == lst]
+            items: T.List[ast.AST] = []
+            where = None
+            for ev in after:
+                got_ = _appended(ev.node, lst) if ev.kind == 'stmt' else None
+                if got_ is not None:
+                    items += got_
+                    where = ev.node
             nrow += 1
-            ok = not rew and len(apps) == 1 and apps[0].func.attr == 'append' and len(apps[0].args) == 1 and norm(apps[0].args[0]) == it
-            ctx.require(ok, f'{qn}: a string test argument is appended unchanged ({[norm(a) for a in apps]})', mod, qn,
-                        f'str argument: {rew + [norm(a) for a in apps]}',
-                        f'for a string argument of test() the serialiser does {rew + [norm(a) for a in apps]} instead of exactly {lst}.append({it})',
-                        apps[0] if apps else loop)
+            ok = not rew and len(items) == 1 and norm(items[0]) == it
+            ctx.require(ok, f'{qn}: a string test argument is appended unchanged ({[norm(a) for a in items]})', mod, qn,
+                        f'str argument: {rew + [norm(a) for a in items]}',
+                        f'for a string argument of test() the serialiser does {rew} and adds {[norm(a) for a in items]} to {lst} instead of exactly the argument itself, once',
+                        where if where is not None else loop)
         ctx.floor(f'{qn}: paths for string arguments', nrow, 1)
 
 
@@ -1137,11 +1349,34 @@ TEMPLATE_RE = r'@[A-Z_]+@'
 
 
 def _is_template_replace(v: ast.AST, var: str) -> T.Optional[str]:
-    """`var.replace('@NAME@', x)` -> '@NAME@'."""
-    if isinstance(v, ast.Call) and isinstance(v.func, ast.Attribute) and v.func.attr == 'replace' and isinstance(v.func.value, ast.Name) and v.func.value.id == var \
+    """`var.replace('@NAME@', x)[.replace('@OTHER@', y)...]`, possibly as an arm of a conditional expression whose other arm is
+    `var` -> the template names (comma separated); None for anything else."""
+    if isinstance(v, ast.IfExp):
+        a = norm(v.body) == var or _is_template_replace(v.body, var)
+        b = norm(v.orelse) == var or _is_template_replace(v.orelse, var)
+        if a and b:
+            return ','.join(x for x in (a, b) if isinstance(x, str)) or None
+        return None
+    names = []
+    while isinstance(v, ast.Call) and isinstance(v.func, ast.Attribute) and v.func.attr == 'replace' \
             and len(v.args) == 2 and not v.keywords and isinstance(v.args[0], ast.Constant) and isinstance(v.args[0].value, str) and re.fullmatch(TEMPLATE_RE, v.args[0].value):
-        return v.args[0].value
+        names.append(v.args[0].value)
+        v = v.func.value
+    if names and isinstance(v, ast.Name) and v.id == var:
+        return ','.join(reversed(names))
     return None
+
+
+def _eff_items(e: str, lst: str) -> T.Optional[T.List[str]]:
+    """Items an effect text adds to list `lst` (append / extend / +=), None when the effect is something else."""
+    try:
+        st = ast.parse(e[5:] if e.startswith('call ') else e).body[0]
+    except SyntaxError:
+        return None
+    items = _appended(st, lst)
+    if items is None:
+        return None
+    return [('*' + norm(x.value)) if isinstance(x, ast.Starred) else norm(x) for x in items]
 
 
 def _is_backslash_norm(v: ast.AST) -> T.Optional[str]:
@@ -1163,7 +1398,7 @@ def _is_backslash_norm(v: ast.AST) -> T.Optional[str]:
 def r5a(ctx: RuleCtx) -> None:
     mod = ctx.repo.module(BACKENDS)
     qn = 'Backend.eval_custom_target_command'
-    fn = mod.func(qn)
+    fn = _nfunc(mod, qn)
     rets = [st for st in walk_no_nested(fn) if isinstance(st, ast.Return)]
     if len(rets) != 1 or not isinstance(rets[0].value, ast.Tuple) or len(rets[0].value.elts) != 3 or not isinstance(rets[0].value.elts[2], ast.Name):
         raise Undecided(f'{qn}: expected a single `return inputs, outputs, <command list>`')
@@ -1184,24 +1419,28 @@ def r5a(ctx: RuleCtx) -> None:
         bad = []
         appended = []
         for e in r.effects:
+            items = _eff_items(e, cmdv)
             if e.startswith(f'{it} := '):
                 t = _is_template_replace(_expr(e.split(':=', 1)[1].strip()), it)
                 if t is None:
                     bad.append(e)
                 else:
-                    seen_templates.add(t)
-            elif e.startswith(f'{it} += ') or (e.startswith('call ') and re.match(rf'call {cmdv}\.(append|extend|insert)\(', e) and e != f'call {cmdv}.append({it})'):
+                    seen_templates |= set(t.split(','))
+            elif e.startswith(f'{it} += '):
                 bad.append(e)
-            elif e == f'call {cmdv}.append({it})':
-                appended.append(e)
-            elif e.startswith(f'{cmdv} += ') or e.startswith(f'{cmdv} := '):
+            elif items is not None:
+                if items == [it]:
+                    appended.append(e)
+                else:
+                    bad.append(e)
+            elif e.startswith(f'{cmdv} := ') or re.match(rf'call {cmdv}\.(insert|remove|pop|clear|sort|reverse)\(', e):
                 bad.append(e)
         key = '; '.join(bad) if bad else f'appends {len(appended)}x'
         ctx.require(not bad and len(appended) == 1, f'{qn}: string element: only @TEMPLATE@ replacements, then {cmdv}.append({it}) [{short(repr(r), 80)}]', mod, qn,
                     f'str element: {key}',
                     f'a string element of the command is rewritten by `{key}`; only .replace of an @TEMPLATE@ literal is an established rewrite and the element must be appended once',
                     r.path.events[-1].node if r.path.events else loop)
-    ctx.floor(f'{qn}: paths for string elements', n, 16)
+    ctx.floor(f'{qn}: paths for string elements', n, 4)
     ctx.note(f'{qn}: templates substituted in place: {sorted(seen_templates)}')
     # after the loop
     kinds = []
@@ -1227,6 +1466,10 @@ def r5a(ctx: RuleCtx) -> None:
                 ctx.violation(mod, qn, st, f'{short(st)} rewrites the evaluated command; established rewrites are substitute_values and backslash -> slash only', st)
             else:
                 raise Undecided(f'{qn}: {short(st)} rebinds the command list in an unknown form')
+    recognised = sum(1 for st in fn.body[k + 1:] if any(isinstance(x, ast.Name) and x.id == cmdv and isinstance(x.ctx, ast.Store) for x in ast.walk(st)))
+    other_uses = [st for st in fn.body[k + 1:] if not isinstance(st, ast.Return) and any(isinstance(x, ast.Name) and x.id == cmdv for x in ast.walk(st))]
+    if kinds != ['substitute_values', 'backslash'] and len(other_uses) > recognised:
+        raise Undecided(f'{qn}: the command list is also used by {[short(x, 50) for x in other_uses][:3]} after the loop; cannot establish the post-processing sequence')
     ctx.require(kinds == ['substitute_values', 'backslash'], f'{qn}: after the loop: {kinds}', mod, qn, f'post-loop rewrites {kinds}',
                 f'the command list is post-processed by {kinds}; the established sequence is template substitution then backslash normalisation')
 
@@ -1289,10 +1532,21 @@ def r5b(ctx: RuleCtx) -> None:
             for c in walk_no_nested(f):
                 if isinstance(c, ast.Call) and call_method(c) == 'escape_extra_args':
                     n += 1
-                    a = c.args[0] if len(c.args) == 1 else None
-                    ok = isinstance(a, ast.Call) and isinstance(a.func, ast.Attribute) and a.func.attr == 'get_extra_args' and isinstance(a.func.value, ast.Name)
-                    ctx.require(ok, f'{rel}:{q}: escape_extra_args({short(a)}) is applied to per-target extra args', m2, q, c,
-                                f'escape_extra_args is applied to {short(a)}: only the per-target <lang>_args (target.get_extra_args) are escaped; any other list would have its backslashes doubled', c)
+                    a = c.args[0] if len(c.args) == 1 else kwarg(c, 'args')
+                    if a is None:
+                        raise Undecided(f'{rel}:{q}: call form {short(c)}')
+                    ffl = OFlow(f)
+                    root = _uncopy(a)
+                    if isinstance(root, ast.Name) and root.id not in ffl.params and len(ffl.defs.get(root.id, [])) == 1:
+                        root = _uncopy(ffl.defs[root.id][0])        # extra = target.get_extra_args(lang); escape_extra_args(extra)
+                    if isinstance(root, ast.Call) and isinstance(root.func, ast.Attribute) and root.func.attr == 'get_extra_args':
+                        ctx.ok(f'{rel}:{q}: escape_extra_args({short(a)}) is applied to per-target extra args')
+                        continue
+                    others = sorted(o for o in ffl.origins(root) if o.startswith('call:') and not o.endswith('.get_extra_args') and o not in ('call:list', 'call:tuple'))
+                    if isinstance(root, ast.Name) and root.id in ffl.params or not others:
+                        raise Undecided(f'{rel}:{q}: cannot see what escape_extra_args({short(a)}) is applied to')
+                    ctx.violation(m2, q, c, f'escape_extra_args is applied to {short(a)}, which also holds the results of {others[:4]}: only the per-target <lang>_args '
+                                  '(target.get_extra_args) are escaped; any other argument would have its backslashes doubled', c)
     ctx.floor('escape_extra_args call sites', n, 2)
 
 
@@ -1322,7 +1576,7 @@ class _R6:
     def __init__(self, ctx: RuleCtx):
         self.mod = mod = ctx.repo.module(BACKENDS)
         self.qn = 'Backend.as_meson_exe_cmdline'
-        self.fn = fn = mod.func(self.qn)
+        self.fn = fn = _nfunc(mod, self.qn)
         self.fl = fl = OFlow(fn)
         self.cfg = cfg = CFG(fn)
         es_names = [n for n, vs in fl.defs.items() if len(vs) == 1 and isinstance(vs[0], ast.Call) and call_method(vs[0]) == 'get_executable_serialisation']
@@ -1356,6 +1610,9 @@ class _R6:
             return e.value.func.value.id
         if n.kind == 'stmt' and isinstance(e, ast.AugAssign) and isinstance(e.op, ast.Add) and isinstance(e.target, ast.Name):
             return e.target.id
+        if n.kind == 'stmt' and isinstance(e, ast.Assign) and len(e.targets) == 1 and isinstance(e.targets[0], ast.Name) and isinstance(e.value, ast.BinOp) \
+                and isinstance(e.value.op, ast.Add) and norm(e.value.left) == e.targets[0].id:
+            return e.targets[0].id          # reasons = reasons + [...]
         return None
 
     def recorders(self, nl: Node) -> T.Tuple[T.Optional[str], T.List[Node], T.Set[str], T.List[Node]]:
@@ -1371,8 +1628,17 @@ class _R6:
         return reasons, A, msgs, t_succ
 
     def find_force(self, reasons: str) -> T.List[Node]:
-        return [n for n in self.cfg.nodes if n.kind == 'stmt' and isinstance(n.ast, ast.Assign) and any(isinstance(x, ast.Name) and x.id == reasons for x in ast.walk(n.ast.value))
-                and len(n.ast.targets) == 1 and isinstance(n.ast.targets[0], ast.Name) and _truthy_given_nonempty(n.ast.value, reasons) is True]
+        out = [n for n in self.cfg.nodes if n.kind == 'stmt' and isinstance(n.ast, ast.Assign) and any(isinstance(x, ast.Name) and x.id == reasons for x in ast.walk(n.ast.value))
+               and len(n.ast.targets) == 1 and isinstance(n.ast.targets[0], ast.Name) and _truthy_given_nonempty(n.ast.value, reasons) is True]
+        # `if reasons: flag = True`
+        for t in self.tests:
+            if _truthy_given_nonempty(t.expr(), reasons) is True:
+                for b, lab in self.cfg.succ[t.id]:
+                    n = self.cfg.nodes[b]
+                    if lab is True and n.kind == 'stmt' and isinstance(n.ast, ast.Assign) and len(n.ast.targets) == 1 and isinstance(n.ast.targets[0], ast.Name) \
+                            and isinstance(n.ast.value, ast.Constant) and n.ast.value.value is True:
+                        out.append(n)
+        return out
 
     def feeds(self, nl: Node, f: Node, A: T.List[Node], t_succ: T.List[Node]) -> bool:
         cfg = self.cfg
@@ -1389,14 +1655,24 @@ class _R6:
                     direct.append(n)
         return direct, pickled
 
-    def excluded(self, r: Node, nl: Node, f: Node, force: str, reasons: str, msgs: T.Set[str]) -> T.Optional[str]:
+    def flag_set_before(self, t: Node, f: Node, A: T.List[Node], reasons: str) -> bool:
+        """Every path from the recording nodes A to t sets the flag at f; the False edge of a test that is true whenever
+        `reasons` is non-empty is not a path (after A the list is non-empty)."""
+        cfg = self.cfg
+
+        def edge_ok(a: Node, b: Node, lab: T.Any) -> bool:
+            return not (a.kind == 'test' and lab is False and _truthy_given_nonempty(a.expr(), reasons) is True)
+        return bool(A) and t.id not in cfg.reachable(A, [f], edge_ok=edge_ok)
+
+    def excluded(self, r: Node, nl: Node, f: Node, force: str, reasons: str, msgs: T.Set[str], A: T.Optional[T.List[Node]] = None) -> T.Optional[str]:
         """Why the return r cannot be taken once the newline test nl was true (None = it can)."""
         cfg = self.cfg
         for t in self.tests:
             if not _only_via_edge(cfg, r, t, True):
                 continue
             for cj in _conjuncts(t.expr()):
-                if isinstance(cj, ast.UnaryOp) and isinstance(cj.op, ast.Not) and norm(cj.operand) == force and cfg.must_pass(cfg.entry, t, [f]):
+                if isinstance(cj, ast.UnaryOp) and isinstance(cj.op, ast.Not) and norm(cj.operand) == force and \
+                        (cfg.must_pass(cfg.entry, t, [f]) or (A is not None and self.flag_set_before(t, f, A, reasons))):
                     return f'guarded by `not {force}`'
                 if isinstance(cj, ast.Compare) and len(cj.ops) == 1 and isinstance(cj.ops[0], ast.Eq) and norm(cj.left) == reasons \
                         and isinstance(cj.comparators[0], ast.List) and all(isinstance(x, ast.Constant) for x in cj.comparators[0].elts) \
@@ -1409,19 +1685,34 @@ def r6(ctx: RuleCtx) -> None:
     R = _R6(ctx)
     mod, qn, fn, fl, cfg, es = R.mod, R.qn, R.fn, R.fl, R.cfg, R.es
     N = [n for n, subj in R.nl_tests if f'attr:{es}.cmd_args' in subj]
-    if len(N) != 1:
-        ctx.violation(mod, qn, 'newline test on the serialised arguments', f'{len(N)} tests of the form `"\\n" in <argument of {es}.cmd_args>` found: '
+    if len(N) > 1:
+        raise Undecided(f'{qn}: {len(N)} newline tests over {es}.cmd_args')
+    if not N:
+        # closed world? a helper we cannot see into that receives the serialisation / its arguments may hold the test
+        hidden = [c for c in ast.walk(fn) if isinstance(c, ast.Call) and call_method(c) != 'get_executable_serialisation'
+                  and ((isinstance(c.func, ast.Name) and mod.has_func(c.func.id)) or (isinstance(c.func, ast.Attribute) and isinstance(c.func.value, ast.Name) and c.func.value.id in ('self', 'cls')))
+                  and any(f'attr:{es}.cmd_args' in fl.origins(a) or norm(a) == es for a in list(c.args) + [k.value for k in c.keywords])]
+        if hidden:
+            raise Undecided(f'{qn}: no newline test over {es}.cmd_args in the function itself; {short(hidden[0])} may contain it')
+        ctx.violation(mod, qn, 'newline test on the serialised arguments', f'no test of the form `"\\n" in <argument of {es}.cmd_args>` in {qn} or the helpers it calls: '
                       'an argument containing a newline cannot be written to build.ninja (ninja_quote raises) and must force the pickled wrapper')
         return
     nl = N[0]
     ctx.ok(f'{qn}: newline test `{short(nl.expr(), 60)}` over {es}.cmd_args')
     reasons, A, msgs, t_succ = R.recorders(nl)
     if reasons is None:
-        ctx.violation(mod, qn, f'{norm(nl.expr())}: no reason recorded', 'the newline test does not record a reason for serialising', nl.ast)
-        return
+        raise Undecided(f'{qn}: cannot see what the newline test records on its True branch ({[short(x.ast, 40) for x in t_succ]})')
     F = R.find_force(reasons)
-    if len(F) != 1:
-        ctx.violation(mod, qn, f'force flag from {reasons}', f'{len(F)} assignments make a flag true whenever `{reasons}` is non-empty; expected exactly one (force_serialize)')
+    if len(F) > 1:
+        raise Undecided(f'{qn}: {len(F)} assignments derive a flag from `{reasons}`')
+    if not F:
+        # positive evidence: a return that places the arguments on the command line and that nothing derived from `reasons` excludes
+        direct0, _ = R.returns()
+        for r in direct0:
+            ctx.violation(mod, qn, r.ast, f'`{short(r.ast, 70)}` puts the arguments on the ninja command line and no flag derived from `{reasons}` '
+                          '(which records the newline) guards it: a command with a newline argument is written to build.ninja and ninja_quote raises', r.ast)
+        if not direct0:
+            raise Undecided(f'{qn}: no flag derived from `{reasons}` and no direct return found')
         return
     f = F[0]
     force = f.ast.targets[0].id
@@ -1439,7 +1730,7 @@ def r6(ctx: RuleCtx) -> None:
     direct, pickled = R.returns()
     ctx.floor(f'{qn}: returns that place the arguments on the command line', len(direct), 3)
     for r in direct:
-        why = R.excluded(r, nl, f, force, reasons, msgs)
+        why = R.excluded(r, nl, f, force, reasons, msgs, A)
         ctx.require(why is not None, f'{qn}: `{short(r.ast, 60)}` unreachable for a newline argument: {why}', mod, qn, r.ast,
                     f'`{short(r.ast, 70)}` puts the arguments on the ninja command line and is not excluded when an argument contains a newline '
                     f'(no dominating `not {force}` / `{reasons} == [...]` guard)', r.ast)
@@ -1451,13 +1742,15 @@ def r6(ctx: RuleCtx) -> None:
             or (isinstance(st, ast.Call) and isinstance(st.func, ast.Attribute) and norm(st.func.value) == f'{es}.cmd_args' and st.func.attr in
                 ('append', 'extend', 'insert', 'pop', 'remove', 'clear', 'sort', 'reverse'))]
     for d in dumps:
-        ctx.require(len(d.args) >= 1 and isinstance(d.args[0], ast.Name) and d.args[0].id == es and not muts, f'{qn}: {short(d)} dumps the unmodified serialisation', mod, qn,
+        dobj = d.args[0] if d.args else kwarg(d, 'obj')
+        ctx.require(isinstance(dobj, ast.Name) and dobj.id == es and not muts, f'{qn}: {short(d)} dumps the unmodified serialisation', mod, qn,
                     f'{norm(d)} / mutations {[norm(m) for m in muts]}', f'{short(d)} does not dump the serialisation `{es}` as returned by get_executable_serialisation '
                     f'(mutations: {[short(m) for m in muts]})', d)
     ctx.floor(f'{qn}: pickled-wrapper returns', len(pickled), 1)
     # the serialisation is built from exe followed by cmd_args
     call = fl.defs[es][0]
-    cmdname = norm(call.args[0]) if call.args else ''   # type: ignore[attr-defined]
+    cmd_e = call.args[0] if call.args else kwarg(call, 'cmd')   # type: ignore[attr-defined]
+    cmdname = norm(cmd_e) if cmd_e is not None else ''
     ps = [a.arg for a in fn.args.args if a.arg != 'self']
     muts = cfg.nodes_with_call(lambda c: isinstance(c.func, ast.Attribute) and norm(c.func.value) == cmdname and c.func.attr in ('append', 'extend', 'insert', 'sort', 'reverse', 'pop', 'remove'))
     esn = cfg.node_containing(call)
@@ -1533,7 +1826,7 @@ def _env_note(ctx: RuleCtx, R: _R6) -> None:
                 F = R.find_force(reasons)
                 if len(F) != 1 or not R.feeds(nl, F[0], A, t_succ):
                     continue
-                why = R.excluded(r, nl, F[0], F[0].ast.targets[0].id, reasons, msgs)
+                why = R.excluded(r, nl, F[0], F[0].ast.targets[0].id, reasons, msgs, A)
                 if why:
                     break
             if why is None:
@@ -1551,6 +1844,7 @@ def _value_root(e: ast.AST, fl: OFlow, depth: int = 0) -> ast.AST:
     """Strip `.encode(...)` and follow single-definition locals: the value whose bytes are hashed / written."""
     while depth < 6:
         depth += 1
+        e = _uncopy(e)
         if isinstance(e, ast.Call) and isinstance(e.func, ast.Attribute) and e.func.attr == 'encode':
             e = e.func.value
         elif isinstance(e, ast.Name) and e.id not in fl.params and len(fl.defs.get(e.id, [])) == 1 and \
@@ -1589,6 +1883,11 @@ def r7(ctx: RuleCtx) -> None:
                 raise Undecided(f'{qn}: {len(fed)} values fed to {h}, {len(written)} values written to {f}')
             a, b = _value_root(fed[0], fl), _value_root(written[0], fl)
             same = isinstance(a, ast.Name) and isinstance(b, ast.Name) and a.id == b.id and len(fl.defs.get(a.id, [])) == 1 and a.id not in fl.params
+            if not same and norm(a) == norm(b) and not isinstance(a, ast.Name):
+                # the same expression spelled twice: equal values when nothing it reads is rebound in between
+                reads = {x.id for x in ast.walk(a) if isinstance(x, ast.Name)}
+                comp_locals = {x.id for g in ast.walk(a) if isinstance(g, ast.comprehension) for x in ast.walk(g.target) if isinstance(x, ast.Name)}
+                same = all(len(fl.defs.get(r_, [])) <= (0 if r_ in fl.params else 1) for r_ in reads - comp_locals)
             n += 1
             ctx.require(same, f'{qn}: the digest naming {short(c.args[0], 30)} is taken over the value written into it ({norm(a)})', mod, qn,
                         f'{h}.update({norm(fed[0])}) / {f}.write({norm(written[0])})',
